@@ -753,6 +753,34 @@ func (t *termRenderer) term(s *pstate, v ssa.Value, d int) string {
 	case *ssa.Phi:
 		return "phi:" + x.Comment
 	case *ssa.Slice:
+		// variadic argument packs: new([N]T)[:] with constant-index stores -> [e0, e1, ...]
+		if a, ok := x.X.(*ssa.Alloc); ok && x.Low == nil && x.High == nil {
+			if arr, ok := a.Type().Underlying().(*types.Pointer).Elem().Underlying().(*types.Array); ok && arr.Len() <= 8 {
+				elems := make([]string, arr.Len())
+				found := 0
+				if refs := a.Referrers(); refs != nil {
+					for _, r := range *refs {
+						ia, ok := r.(*ssa.IndexAddr)
+						if !ok {
+							continue
+						}
+						idx, ok := constInt(ia.Index)
+						if !ok || idx < 0 || idx >= arr.Len() || ia.Referrers() == nil {
+							continue
+						}
+						for _, rr := range *ia.Referrers() {
+							if st, ok := rr.(*ssa.Store); ok && st.Addr == ia {
+								elems[idx] = t.term(s, st.Val, d+1)
+								found++
+							}
+						}
+					}
+				}
+				if int64(found) == arr.Len() {
+					return "[" + strings.Join(elems, ", ") + "]"
+				}
+			}
+		}
 		lo, hi := "", ""
 		if x.Low != nil {
 			lo = t.term(s, x.Low, d+1)
@@ -1177,7 +1205,50 @@ func neverNilError(v ssa.Value) bool {
 	case "fmt.Errorf", "errors.New":
 		return true
 	}
-	return false
+	return funcNeverNil(f, 0)
+}
+
+var neverNilMemo = map[*ssa.Function]bool{}
+
+// funcNeverNil: a source function all of whose returns yield a constructed (non-nil) error as last result.
+func funcNeverNil(f *ssa.Function, depth int) bool {
+	if v, ok := neverNilMemo[f]; ok {
+		return v
+	}
+	if len(f.Blocks) == 0 || depth > 2 {
+		return false
+	}
+	neverNilMemo[f] = false
+	res := f.Signature.Results()
+	if res.Len() == 0 || !isErrorType(res.At(res.Len()-1).Type()) {
+		return false
+	}
+	ok := true
+	n := 0
+	for _, b := range f.Blocks {
+		ret, isRet := b.Instrs[len(b.Instrs)-1].(*ssa.Return)
+		if !isRet {
+			continue
+		}
+		n++
+		v := ret.Results[len(ret.Results)-1]
+		switch x := v.(type) {
+		case *ssa.MakeInterface:
+		case *ssa.Call:
+			cf := x.Call.StaticCallee()
+			if cf == nil || cf.Pkg == nil {
+				ok = false
+			} else if full := cf.Pkg.Pkg.Path() + "." + cf.Name(); full != "fmt.Errorf" && full != "errors.New" && !funcNeverNil(cf, depth+1) {
+				ok = false
+			}
+		default:
+			if !sentinelError(v) {
+				ok = false
+			}
+		}
+	}
+	neverNilMemo[f] = ok && n > 0
+	return ok && n > 0
 }
 
 // sentinelError: a load of a package-level error variable (ErrX = errors.New(...)); assumed non-nil.
@@ -1188,4 +1259,62 @@ func sentinelError(v ssa.Value) bool {
 	}
 	_, ok = u.X.(*ssa.Global)
 	return ok && isErrorType(u.Type())
+}
+
+// ---- order helpers ---------------------------------------------------------------------------------------------
+
+// instrDominates: a executes before b on every path to b (same function).
+func instrDominates(a, b ssa.Instruction) bool {
+	if a.Block() == b.Block() {
+		for _, i := range a.Block().Instrs {
+			if i == a {
+				return true
+			}
+			if i == b {
+				return false
+			}
+		}
+		return false
+	}
+	return a.Block().Dominates(b.Block())
+}
+
+// callSites returns the call instructions in fn whose callee name matches re.
+func callSites(fn *ssa.Function, re string) []ssa.CallInstruction {
+	r := regexp.MustCompile(re)
+	var out []ssa.CallInstruction
+	for _, b := range fn.Blocks {
+		for _, ins := range b.Instrs {
+			if ci, ok := ins.(ssa.CallInstruction); ok {
+				if n := calleeName(ci.Common()); n != "" && r.MatchString(n) {
+					out = append(out, ci)
+				}
+			}
+		}
+	}
+	return out
+}
+
+// AllDominatedBy: every call matching reB is dominated by some call matching reA. Obligation per B site.
+func (c *Ctx) AllDominatedBy(rule string, fn *ssa.Function, reA, reB string, minB int, what string) {
+	as := callSites(fn, reA)
+	bs := callSites(fn, reB)
+	if len(bs) < minB {
+		c.Ob(rule, shortFn(fn)+": "+what, c.FnPos(fn), false, fmt.Sprintf("expected at least %d calls matching /%s/, found %d", minB, reB, len(bs)))
+		return
+	}
+	for _, b := range bs {
+		ok := false
+		for _, a := range as {
+			if instrDominates(a, b) {
+				ok = true
+			}
+		}
+		c.Ob(rule, shortFn(fn)+": "+what, c.Position(b.Pos()), ok, fmt.Sprintf("call %s must be preceded on every path by a call matching /%s/", calleeName(b.Common()), reA))
+	}
+}
+
+// termOf renders an SSA value of fn without path bindings.
+func (c *Ctx) termOf(fn *ssa.Function, v ssa.Value) string {
+	return c.Facts(fn).tr.term(nil, v, 0)
 }
